@@ -152,6 +152,14 @@ pub fn dump<'tcx>(tcx: TyCtxt<'tcx>, tag: &str) -> String {
             _ => {}
         }
     }
+    // closures and inline consts are not HIR owners: add the closures explicitly
+    for ldid in items.nested_bodies() {
+        let did = ldid.to_def_id();
+        if tcx.def_kind(did) == DefKind::Closure && tcx.is_mir_available(did) {
+            lines.push(cx.fn_fact(ldid));
+            n_fn += 1;
+        }
+    }
     // ---- automatic probes: every local generic ADT with a local Opaquable impl is instantiated with the handle
     // types aliased in `probes::auto_handles` (AH_*) and the context aliased as AC_*; nothing is named by the corpus.
     {
